@@ -517,7 +517,7 @@ fn main() {
         }
     }
     if args.case.is_none() {
-        let n = args.n.unwrap_or(if args.thorough() { 1200 } else { 120 });
+        let n = args.n.unwrap_or(if args.thorough() { 900 } else { 120 });
         let mut rng = Rng::new(args.seed);
         for i in 0..n {
             let mut r = rng.fork();
